@@ -71,7 +71,7 @@ def set_path(p, path, value):
         setattr(obj, path[-1], value)
 
 
-def run_history(h, ns):
+def run_history(h, ns, g=None, d=None):
     live, report = {}, []
     assigned = set()          # ids of objects the USER assigned to two places (allowed sharing)
     for k, op in enumerate(h):
@@ -112,7 +112,47 @@ def run_history(h, ns):
             if len(owners) > 1:
                 report.append(dict(step=k, op=op, kind='shared-object', paths=sorted(paths)[:4]))
                 break
+    if g is not None and g.get('solo'):
+        solo_check(live, g, d, report, h)
     return report
+
+
+_WORLD = [0]
+
+
+def fresh_world(g, d):
+    """the same class definitions executed again under new module names: new class objects, new field objects, no history"""
+    _WORLD[0] += 1
+    ns, good = {}, []
+    for k, blk in enumerate(g['blocks']):
+        modname = "%s_w%d_%d" % (g['modname'], _WORLD[0], k)
+        src = g['header'] + "".join("from %s import *\n" % m for m in good) + blk['src']
+        try:
+            mod = load_module(src, modname, d)
+            good.append(modname)
+            ns.update({n: v for n, v in vars(mod).items() if not n.startswith('__')})
+        except BaseException:
+            sys.modules.pop(modname, None)
+    for m in good:
+        sys.modules.pop(m, None)
+    return ns
+
+
+def solo_check(live, g, d, report, h):
+    """independence from the rest of the world: what a live packet serializes to must be what an equal packet serializes to
+    in a world where nothing else ever happened (fresh classes, only this packet built)"""
+    for j, p in live.items():
+        try:
+            mine = p.pack().hex()
+        except Exception as e:
+            mine = 'EXC:' + type(e).__name__
+        try:
+            q = build(json.loads(json.dumps(canon(p))), fresh_world(g, d))
+            solo = q.pack().hex()
+        except Exception as e:
+            solo = 'EXC:' + type(e).__name__
+        if mine != solo:
+            report.append(dict(step=len(h), op=['end', j], kind='world-dependent', packet=j, fields=canon(p), here=mine, alone=solo))
 
 
 def run_threads(spec, ns):
@@ -160,7 +200,7 @@ if __name__ == '__main__':
             if name.startswith(g['modname'] + '_'):
                 ns.update({n: v for n, v in vars(m).items() if not n.startswith('__')})
         del WRITES[:]
-        reports = [run_history(h, ns) for h in g['histories']]
+        reports = [run_history(h, ns, g, d) for h in g['histories']]
         th = run_threads(g['threads'], ns) if g.get('threads') else None
         out['groups'].append(dict(defs=res['defs'], reports=reports, writes=sorted(set(map(tuple, WRITES))), threads=th))
     json.dump(out, open(sys.argv[2], 'w'))
